@@ -500,7 +500,8 @@ class Ctx:
         json.dump(ev, open(os.path.join(evdir, self.pid + '.json'), 'w'), indent=1, default=str)
         for d in self.drift:
             log('spec_drift: %s' % json.dumps(d, default=str)[:600])
-        shutil.rmtree(self.dir, ignore_errors=True)
+        if not os.environ.get('VERIF_KEEP_WORK'):
+            shutil.rmtree(self.dir, ignore_errors=True)
         if self.violations:
             for v in self.violations:
                 print('VIOLATION property=%s replay=%s' % (self.pid, v['replay']))
